@@ -278,6 +278,15 @@ def arm_Projection(ctx, ip, arm):
         nexts = [t for x, t in arm.calls if t["callee"] == "std::iter::Iterator::next"]
         it_ok = len(nexts) == 1 and all(i[0] == "iter" and i[1][0] == "view" and ip.is_res({i[1][2]}, "Projection.lhs") for i in ip.o.of_operand(nexts[0]["args"][0]))
         chk(ctx, ip, arm, "all-elements-in-order", it_ok, "the loop visits every element of the array in order (plain iterator, no adapter)")
+        # ... and evaluates the right-hand side for every one of them: what is dropped is decided by the result, never by the
+        # element (a null element may well project to something: `[*].type(@)`)
+        if len(nexts) == 1:
+            nb = [x for x, t in arm.calls if t is nexts[0]][0]
+            evals = {x for x, d, nd, c in arm.recursive if set(nd) == {("field", NODE, "Projection.rhs")}}
+            ve = ip.br.variant_edges(b.blocks[nb]["term"]["t"])
+            some_t = ve["edges"].get("Some", ve["otherwise"]) if ve else None
+            skip = some_t is None or not evals or nb in reach_avoiding(b, some_t, avoid_blocks=evals)
+            chk(ctx, ip, arm, "evaluates-every-element", not skip, "from one element to the next the loop always passes the right-hand side's evaluation (no element is skipped before it)")
     elif len(arr) == 1 and not pushes and not others:
         # the same as an iterator chain: left.iter().filter_map(|e| .. interpret(e, rhs, ctx) .. ).collect()
         from ..collected import ELEM, describe_vector
